@@ -8,6 +8,7 @@ import (
 	"go/types"
 	"sort"
 	"strings"
+	"sync"
 
 	"verif/checker/core"
 )
@@ -29,7 +30,7 @@ func init() {
 		Title: "allocation sizes are not taken from peer-controlled fields",
 		Text: "In package restli no argument of bytes.Buffer.Grow, make(…, n) or a slice bound is derived (through local assignments) from http.Response.ContentLength / http.Request.ContentLength or a header value: " +
 			"a hostile peer chooses that number, and Grow / make panic (or exhaust memory) on absurd values in the caller's goroutine.",
-		Props: []string{"C04"},
+		Props: []string{"C04", "C14"},
 		Floor: map[string]int{"v2": 1, "root": 1},
 		Run:   runR047,
 	})
@@ -1341,7 +1342,7 @@ func init() {
 		Title: "append never grows one object's slice into another variable",
 		Text: "In the generator and runtime packages every `y = append(x, …)` either stores back into the operand it grew (y is x), or grows a slice this function owns (nil, a literal, make, a conversion, a local that was itself built that way, or a full-slice expression x[:n:n] that forces a copy). " +
 			"`all := append(r.ReadOnlyFields, r.CreateOnlyFields...)` writes into the spare capacity of r.ReadOnlyFields; a later in-place sort or a second append through the original then rewrites the other list (the generated exclusion specs, required-field lists, key lists).",
-		Props: []string{"C07", "C12", "C06"},
+		Props: []string{"C07", "C12", "C06", "C09"},
 		Floor: map[string]int{"v2": 20, "root": 10},
 		Run:   runR126,
 	})
@@ -1388,7 +1389,11 @@ func runR126(c *core.Ctx) {
 								return len(y.Args) > 0 && ownedExpr(y.Args[0])
 							}
 						}
-						// a call result is a fresh value as far as this function is concerned (callee's business)
+						// a call result is a fresh value as far as this function is concerned (callee's business) — unless the
+						// callee is a function of the module that can hand out one of its receiver's / parameters' slices as is
+						if cf := core.Callee(inf, y); cf != nil && returnsForeignSlice(c, cf) {
+							return false
+						}
 						return true
 					}
 					return false
@@ -1454,8 +1459,57 @@ func runR126(c *core.Ctx) {
 							base = core.Unparen(se.X)
 						}
 						okSite := core.SameExpr(inf, as.Lhs[i], src) || core.SameExpr(inf, as.Lhs[i], base) || ownedExpr(src)
-						c.Check(okSite, rel, core.DeclName(fd), fmt.Sprintf("append #%d stores back into its operand or grows an owned slice", ordinal(fd, call)), call.Pos(), "",
-							core.ExprString(as.Lhs[i])+" = append("+core.ExprString(src)+", …): the result may share the backing array of "+core.ExprString(src)+", which this function does not own; writes through either overwrite the other")
+						// `b := m[k]; …; m[k] = append(b, v)`: the operand is a local that was loaded from the very place the result is
+						// stored to (and is assigned nowhere else): that is the store-back, spelled through a local
+						if id, isId := base.(*ast.Ident); isId && !okSite {
+							if o := core.ObjOf(inf, id); o != nil && core.ObjPos(o) >= fd.Body.Pos() && core.ObjPos(o) <= fd.Body.End() {
+								defs, same := 0, 0
+								ast.Inspect(fd.Body, func(z ast.Node) bool {
+									if das, ok := z.(*ast.AssignStmt); ok {
+										for k, dl := range das.Lhs {
+											if did, ok := core.Unparen(dl).(*ast.Ident); ok && core.ObjOf(inf, did) == o {
+												defs++
+												var rhs ast.Expr
+												if len(das.Lhs) == len(das.Rhs) {
+													rhs = das.Rhs[k]
+												} else if k == 0 && len(das.Rhs) == 1 {
+													rhs = das.Rhs[0]
+												}
+												if rhs != nil && core.SameExpr(inf, rhs, as.Lhs[i]) {
+													same++
+												}
+											}
+										}
+									}
+									return true
+								})
+								if defs == 1 && same == 1 {
+									okSite = true
+								}
+							}
+						}
+						why := core.ExprString(as.Lhs[i]) + " = append(" + core.ExprString(src) + ", …): the result may share the backing array of " + core.ExprString(src) + ", which this function does not own; writes through either overwrite the other"
+						// a truncating append (append(x[:k], …)) overwrites the elements from k on in place.  Through a local that
+						// merely aliases somebody else's slice — a variable loaded from a call that returns its receiver's field, or
+						// the field of a struct value copied with `out := *p` — that rewrites the other holder's elements while its
+						// length stays what it was.
+						if _, truncating := core.Unparen(src).(*ast.SliceExpr); truncating && okSite && !ownedExpr(base) {
+							if id, isId := base.(*ast.Ident); isId {
+								if o := core.ObjOf(inf, id); o != nil && core.ObjPos(o) >= fd.Body.Pos() && core.ObjPos(o) <= fd.Body.End() && aliasesCallResult(inf, fd, o, func(cf *types.Func) bool { return returnsForeignSlice(c, cf) }) {
+									okSite = false
+									why = core.ExprString(as.Lhs[i]) + " = append(" + core.ExprString(src) + ", …) truncates and rewrites in place a slice that " + id.Name + " only aliases (it comes from a function that returns its receiver's own slice): the owner's elements are overwritten"
+								}
+							}
+							if sel, isSel := base.(*ast.SelectorExpr); isSel {
+								if r := rootIdent(sel); r != nil {
+									if o := inf.Uses[r]; o != nil && shallowStructCopy(inf, fd, o) {
+										okSite = false
+										why = core.ExprString(as.Lhs[i]) + " = append(" + core.ExprString(src) + ", …) rewrites in place the elements of a slice that the struct copy " + r.Name + " shares with the value it was copied from"
+									}
+								}
+							}
+						}
+						c.Check(okSite, rel, core.DeclName(fd), fmt.Sprintf("append #%d stores back into its operand or grows an owned slice", ordinal(fd, call)), call.Pos(), "", why)
 					}
 					return true
 				})
@@ -1465,6 +1519,123 @@ func runR126(c *core.Ctx) {
 	if n == 0 {
 		c.Unknown("-", "-", "append call sites", token.NoPos, "none found")
 	}
+}
+
+// returnsForeignSlice: f is a function of the module with a slice result, one of whose returns yields a field of its
+// receiver / a parameter, or a parameter itself, as is (no copy).
+func returnsForeignSlice(c *core.Ctx, f *types.Func) bool {
+	f = f.Origin()
+	if v, ok := foreignSliceMemo.Load(f); ok {
+		return v.(bool)
+	}
+	res := false
+	defer func() { foreignSliceMemo.Store(f, res) }()
+	if f.Pkg() == nil || !c.M.InModule(f.Pkg()) {
+		return false
+	}
+	fd := c.M.Decl(f)
+	if fd == nil || fd.Body == nil {
+		return false
+	}
+	inf := c.M.InfoFor(fd.Pos())
+	if inf == nil {
+		return false
+	}
+	params := map[types.Object]bool{}
+	if fd.Recv != nil {
+		for _, fl := range fd.Recv.List {
+			for _, nm := range fl.Names {
+				params[inf.Defs[nm]] = true
+			}
+		}
+	}
+	for _, fl := range fd.Type.Params.List {
+		for _, nm := range fl.Names {
+			params[inf.Defs[nm]] = true
+		}
+	}
+	for _, r := range core.ReturnsIn(fd.Body) {
+		for _, e := range r.Results {
+			tv, ok := inf.Types[e]
+			if !ok || tv.Type == nil {
+				continue
+			}
+			if _, isSlice := tv.Type.Underlying().(*types.Slice); !isSlice {
+				continue
+			}
+			switch y := core.Unparen(e).(type) {
+			case *ast.SelectorExpr:
+				if fv, ok := core.ObjOf(inf, y).(*types.Var); ok && fv.IsField() {
+					if rid := rootIdent(y); rid != nil && params[inf.Uses[rid]] {
+						res = true
+					}
+				}
+			case *ast.Ident:
+				if params[inf.Uses[y]] {
+					res = true
+				}
+			}
+		}
+	}
+	return res
+}
+
+var foreignSliceMemo sync.Map
+
+// aliasesCallResult: some assignment of the local o takes the result of a call for which pred holds.
+func aliasesCallResult(inf *types.Info, fd *ast.FuncDecl, o types.Object, pred func(*types.Func) bool) bool {
+	found := false
+	ast.Inspect(fd.Body, func(x ast.Node) bool {
+		as, ok := x.(*ast.AssignStmt)
+		if !ok || len(as.Lhs) != len(as.Rhs) {
+			return true
+		}
+		for i, l := range as.Lhs {
+			if id, isId := core.Unparen(l).(*ast.Ident); isId && core.ObjOf(inf, id) == o {
+				if call, isCall := core.Unparen(as.Rhs[i]).(*ast.CallExpr); isCall {
+					if cf := core.Callee(inf, call); cf != nil && pred(cf) {
+						found = true
+					}
+				}
+			}
+		}
+		return true
+	})
+	return found
+}
+
+// shallowStructCopy: o is a local of struct type that is assigned a copy of another struct value (`out := *p`, `out = *p`,
+// `out := other`).
+func shallowStructCopy(inf *types.Info, fd *ast.FuncDecl, o types.Object) bool {
+	if _, isStruct := o.Type().Underlying().(*types.Struct); !isStruct {
+		return false
+	}
+	if core.ObjPos(o) < fd.Body.Pos() || core.ObjPos(o) > fd.Body.End() {
+		return false
+	}
+	found := false
+	ast.Inspect(fd.Body, func(x ast.Node) bool {
+		as, ok := x.(*ast.AssignStmt)
+		if !ok || len(as.Lhs) != len(as.Rhs) {
+			return true
+		}
+		for i, l := range as.Lhs {
+			if id, isId := core.Unparen(l).(*ast.Ident); isId && core.ObjOf(inf, id) == o {
+				switch r := core.Unparen(as.Rhs[i]).(type) {
+				case *ast.StarExpr:
+					found = true
+				case *ast.Ident:
+					if !core.IsNil(inf, r) {
+						found = true
+					}
+				case *ast.SelectorExpr, *ast.IndexExpr:
+					found = true
+				}
+			}
+		}
+		return true
+	})
+	return found
 }
 
 func isStringType(inf *types.Info, e ast.Expr) bool {
@@ -2738,7 +2909,7 @@ func init() {
 		Title: "rune offsets are not element indices",
 		Text: "In the codec packages, the key of a `for i, c := range <string>` loop (the byte offset of the rune) is never used to index or slice anything but that same string: " +
 			"a bytes value is one character per byte, and writing data[i] = byte(c) leaves gaps and a wrong length as soon as a character above 0x7F occurs (a fixed of the wrong size is then accepted, a right-sized one rejected).",
-		Props: []string{"C01", "C11", "C03"},
+		Props: []string{"C01", "C11", "C03", "C04"},
 		Floor: map[string]int{"v2": 1, "root": 1},
 		Run:   runR018,
 	})
